@@ -93,18 +93,48 @@ struct Outcome {
 }
 
 /// fresh events, one call of the real `possible_intersection` with an empty queue, effects read back
+trait From64: Float {
+    fn from64(x: f64) -> Self;
+}
+impl From64 for f64 {
+    fn from64(x: f64) -> f64 {
+        x
+    }
+}
+impl From64 for f32 {
+    fn from64(x: f64) -> f32 {
+        x as f32
+    }
+}
+thread_local! {
+    /// run the integer families through the f32 instantiation (the scaled coordinates must be exact in f32)
+    static USE_F32: std::cell::Cell<bool> = const { std::cell::Cell::new(false) };
+}
+fn use_f32() -> bool {
+    USE_F32.with(|c| c.get())
+}
+
 fn step(a: V, b: V, c: V, d: V, same: bool, in_out_1: bool, in_out_2: bool) -> Result<Outcome, String> {
+    if use_f32() {
+        step_f::<f32>(a, b, c, d, same, in_out_1, in_out_2)
+    } else {
+        step_f::<f64>(a, b, c, d, same, in_out_1, in_out_2)
+    }
+}
+
+fn step_f<F: From64>(a: V, b: V, c: V, d: V, same: bool, in_out_1: bool, in_out_2: bool) -> Result<Outcome, String> {
     catch_unwind(AssertUnwindSafe(|| {
-        let (s1, o1) = mk::<f64>(f(a), f(b), true, 1);
-        let (s2, o2) = mk::<f64>(f(c), f(d), same, 2);
+        let g = |p: P| (F::from64(p.0), F::from64(p.1));
+        let (s1, o1) = mk::<F>(g(f(a)), g(f(b)), true, 1);
+        let (s2, o2) = mk::<F>(g(f(c)), g(f(d)), same, 2);
         s1.set_in_out(in_out_1, false);
         s2.set_in_out(in_out_2, false);
         let mut q = BinaryHeap::new();
         let rc = possible_intersection(&s1, &s2, &mut q);
-        let pt = |e: &Rc<SweepEvent<f64>>| (e.point.x, e.point.y);
+        let pt = |e: &Rc<SweepEvent<F>>| -> P { (e.point.x.into(), e.point.y.into()) };
         let un1 = Rc::ptr_eq(&s1.get_other_event().unwrap(), &o1);
         let un2 = Rc::ptr_eq(&s2.get_other_event().unwrap(), &o2);
-        let pieces = |s: &Rc<SweepEvent<f64>>, r: P| {
+        let pieces = |s: &Rc<SweepEvent<F>>, r: P| {
             let mut out = vec![];
             let mut cur = s.clone();
             for _ in 0..8 {
@@ -155,7 +185,7 @@ pub fn check_int(a: V, b: V, c: V, d: V, same: bool) -> Vec<String> {
     };
     let cls = classify(a, b, c, d);
     let mag = [a, b, c, d].iter().map(|v| v.0.abs().max(v.1.abs())).max().unwrap() as f64;
-    let tol = 1e-14 * mag.max(1.0) * sc();
+    let tol = if use_f32() { 1e-6 } else { 1e-14 } * mag.max(1.0) * sc();
     let unchanged = o.queue_len == 0 && o.div1.is_none() && o.div2.is_none();
     match cls {
         Cls::Disjoint => {
@@ -298,6 +328,10 @@ fn sweep_int(st: &Stats, name: &str, segs: &[(V, V)], map: &(dyn Fn(V) -> V + Sy
 }
 
 fn sweep_int_scaled(st: &Stats, name: &str, segs: &[(V, V)], map: &(dyn Fn(V) -> V + Sync), scale_exp: i32) {
+    sweep_int_full(st, name, segs, map, scale_exp, false)
+}
+
+fn sweep_int_full(st: &Stats, name: &str, segs: &[(V, V)], map: &(dyn Fn(V) -> V + Sync), scale_exp: i32, f32_mode: bool) {
     let mapped: Vec<(V, V)> = segs
         .iter()
         .map(|&(p, q)| {
@@ -313,6 +347,7 @@ fn sweep_int_scaled(st: &Stats, name: &str, segs: &[(V, V)], map: &(dyn Fn(V) ->
     (0..mapped.len()).into_par_iter().for_each(|i| {
         let mut loc = Local::default();
         SCALE.with(|c| c.set(2f64.powi(scale_exp)));
+        USE_F32.with(|c| c.set(f32_mode));
         let (a, b) = mapped[i];
         for &(c, d) in mapped.iter() {
             for same in [false, true] {
@@ -323,12 +358,13 @@ fn sweep_int_scaled(st: &Stats, name: &str, segs: &[(V, V)], map: &(dyn Fn(V) ->
                     loc.nontrivial += 1;
                 }
                 for cla in check_int(a, b, c, d, same) {
-                    let key = format!("{:?}-{:?}|{:?}-{:?}|same={same}|2^{scale_exp}", a, b, c, d);
-                    loc.violation(&cla, key, json!({"prop": "C16", "kind": "int", "a": [a.0, a.1], "b": [b.0, b.1], "c": [c.0, c.1], "d": [d.0, d.1], "same": same, "scale_exp": scale_exp}));
+                    let key = format!("{:?}-{:?}|{:?}-{:?}|same={same}|2^{scale_exp}{}", a, b, c, d, if f32_mode { "|f32" } else { "" });
+                    loc.violation(&cla, key, json!({"prop": "C16", "kind": "int", "a": [a.0, a.1], "b": [b.0, b.1], "c": [c.0, c.1], "d": [d.0, d.1], "same": same, "scale_exp": scale_exp, "f32": f32_mode}));
                 }
             }
         }
         SCALE.with(|c| c.set(1.0));
+        USE_F32.with(|c| c.set(false));
         st.merge(&loc);
     });
 }
@@ -439,6 +475,7 @@ pub fn replay(case: &Value, verbose: bool) -> Vec<String> {
     let (a, b, c, d) = (v("a"), v("b"), v("c"), v("d"));
     let same = case["same"].as_bool().unwrap();
     SCALE.with(|c| c.set(2f64.powi(case["scale_exp"].as_i64().unwrap_or(0) as i32)));
+    USE_F32.with(|c| c.set(case["f32"].as_bool().unwrap_or(false)));
     if verbose {
         println!("segment 1 {:?}-{:?}, segment 2 {:?}-{:?}, same operand: {same}; exact classification {:?}", a, b, c, d, classify(a, b, c, d));
         if let Ok(o) = step(a, b, c, d, same, false, false) {
@@ -481,6 +518,14 @@ pub fn run(tier: &str) -> i32 {
         for k in [-60, 100] {
             sweep_int_scaled(&st, &format!("L6 x 2^{k}"), &lattice_segments(6), &|v| v, k);
         }
+    }
+    // the single-precision instantiation on lattices whose coordinates, differences and cross products are exact in f32
+    sweep_int_full(&st, "L4 in f32", &l4, &|v| v, 0, true);
+    sweep_int_full(&st, "L4 x 2^-20 in f32", &l4, &|v| v, -20, true);
+    sweep_int_full(&st, "L4 x 2^30 in f32", &l4, &|v| v, 30, true);
+    if thorough {
+        sweep_int_full(&st, "L8 in f32", &lattice_segments(8), &|v| v, 0, true);
+        sweep_int_full(&st, "L6 translated by (1000, -2000) in f32", &lattice_segments(6), &|v| (v.0 + 1000, v.1 - 2000), 0, true);
     }
     // steep segments: end points in {0,1,2} x {0, +-1, +-2^24, +-(2^24-1)} (thorough: more heights)
     let mut ys = vec![0, 1, -1, big, -big, big - 1, -(big - 1)];
